@@ -29,7 +29,9 @@ import (
 	"sort"
 	"strconv"
 	"sync"
+	"sync/atomic"
 	"testing"
+	"time"
 
 	"github.com/synnaxlabs/alamos"
 	"github.com/synnaxlabs/x/errors"
@@ -112,6 +114,7 @@ type vResult struct {
 type vCfg struct {
 	unit, nominal, cap, T, tsmap int
 	persist                      bool
+	hang                         time.Duration
 	ins                          alamos.Instrumentation
 }
 
@@ -604,7 +607,41 @@ func vFileSizeFor(nominalBytes int) telem.Size {
 	return 0
 }
 
-func vReplayOne(c vCfg, hist []vStep) (res vResult, cnt vCounters, findings []vResult) {
+// vReplayOne replays one history under a watchdog: a call of the code under test that
+// never returns (deadlock, endless loop) is reported, not waited for.
+func vReplayOne(c vCfg, hist []vStep) (vResult, vCounters, []vResult) {
+	type out struct {
+		res vResult
+		cnt vCounters
+		fnd []vResult
+	}
+	var (
+		ch   = make(chan out, 1)
+		prog atomic.Int64
+	)
+	go func() {
+		res, cnt, fnd := vReplayOneInner(c, hist, &prog)
+		ch <- out{res, cnt, fnd}
+	}()
+	select {
+	case o := <-ch:
+		return o.res, o.cnt, o.fnd
+	case <-time.After(c.hang):
+		i := int(prog.Load())
+		a := "?"
+		if i < len(hist) {
+			a = hist[i].A
+		}
+		kind := "drift"
+		if a == "open" || a == "commit" || a == "wd" {
+			kind = "verdict" // the call did not fail cleanly: it did not return at all
+		}
+		return vResult{R: "mismatch", Kind: kind, Clause: "hang", Step: i, Exp: a + " returns",
+			Act: fmt.Sprintf("no return within %v", c.hang)}, vCounters{}, nil
+	}
+}
+
+func vReplayOneInner(c vCfg, hist []vStep, prog *atomic.Int64) (res vResult, cnt vCounters, findings []vResult) {
 	ctx := context.Background()
 	db, err := Open(Config{FS: xfs.NewMem(), FileSize: vFileSizeFor(c.nominal * c.unit), Instrumentation: c.ins})
 	if err != nil {
@@ -617,6 +654,7 @@ func vReplayOne(c vCfg, hist []vStep) (res vResult, cnt vCounters, findings []vR
 	r := &vReplayer{c: c, ctx: ctx, db: db, slots: map[int]*vSession{}, content: map[telem.TimeStamp][]byte{}}
 	res = vResult{R: "ok"}
 	for i, st := range hist {
+		prog.Store(int64(i))
 		var m *vMismatch
 		func() {
 			defer func() {
@@ -632,6 +670,10 @@ func vReplayOne(c vCfg, hist []vStep) (res vResult, cnt vCounters, findings []vR
 			}
 			break
 		}
+	}
+	if res.Clause == "panic" || res.Clause == "harness-panic" {
+		// the code under test may have panicked while holding the index lock
+		return res, r.cnt, r.findings
 	}
 	func() {
 		defer func() { _ = recover() }()
@@ -673,7 +715,7 @@ func TestVerifDomainReplay(t *testing.T) {
 	base := vCfg{
 		unit: vEnvInt("VERIF_UNIT", 4), nominal: vEnvInt("VERIF_NOMINAL", 2), cap: vEnvInt("VERIF_CAP", 3),
 		T: vEnvInt("VERIF_T", 6), tsmap: vEnvInt("VERIF_TSMAP", 0), persist: os.Getenv("VERIF_PERSIST") == "1",
-		ins: vLogger(t),
+		ins: vLogger(t), hang: time.Duration(vEnvInt("VERIF_HANG_S", 60)) * time.Second,
 	}
 	// VERIF_VARY=1: concretisation (unit, timestamp map, persist) varies per history
 	vary := os.Getenv("VERIF_VARY") == "1"
